@@ -803,8 +803,15 @@ def codec_stream(ctx, drivers, ns, label, specs, n_values, n_invalid, n_strings)
             if m is not None and not (is_cpp and r["kind"] == "de" and has_nested_delim(gt.expr)):
                 ctx.traces += 1
                 ca, cm = outcome_class(a, r["kind"]), outcome_class(m, r["kind"])
-                if ca != cm:
+                # C04's prediction is the STATUS (success / which documented error); produced and consumed sizes are value
+                # correctness (C01/C02) and only counted here
+                if (ca[0], ca[1] if ca[0] != "ok" else None) != (cm[0], cm[1] if cm[0] != "ok" else None):
                     ctx.disagree("codec/" + t.name, {"type": gt.tstr, "request": r["req"]}, m, a)
+                elif ca != cm:
+                    ctx.count("codec_size_differs_from_spec_not_c04")
+                    ex = ctx.extra.setdefault("size_defects_outside_c04", [])
+                    if len(ex) < 3:
+                        ex.append({"target": t.name, "type": gt.tstr, "request": r["req"][:300], "model": m[:120], "impl": a[:120]})
             if r["kind"] == "de":
                 groups.setdefault(r["group"], []).append((r, a))
         # prior-state independence: every way of preparing the destination gives the same answer
